@@ -100,6 +100,18 @@ func propC01(run *Run, n int) {
 		a, b := cfg.Pair(r)
 		a, b = withVoid(r, a, b)
 		addC01Case(run, ch.o, ch.label, a, b)
+		if r.Chance(1, 15) {
+			// Precision: runs of aligned numbers that are kept, nudged by less than eps, or really changed — with no
+			// unchanged element between a nudged pair and a changed pair
+			pa, pb := precRunPair(r, 0.1)
+			run.Count("precision:nudged-pair-next-to-a-changed-pair")
+			addC01Case(run, OptPrec(0.1), "Precision(0.1)-runs", pa, pb)
+		}
+		if r.Chance(1, 15) {
+			ta, tb := stableTwinPair(r)
+			run.Count("keyed:explicit-null-member-changes-next-to-a-member-lacking-the-key")
+			addC01Case(run, OptKeys("id", "k"), "SetKeys(id,k)-stable-twin", ta, tb)
+		}
 		if r.Chance(1, 8) {
 			// chained use of the API: the document a Patch returned (its array nodes carry the Go dynamic
 			// types jsonList / jsonSet / jsonMultiset) is diffed against a document read from text
@@ -112,6 +124,80 @@ func propC01(run *Run, n int) {
 			}
 		}
 	}
+}
+
+// stableTwinPair: under SetKeys(id,k) an array holds a member that LACKS k and a member with the same id that holds
+// null for k (their path objects coincide). Only members carrying every key explicitly change between a and b, so every
+// keyed hunk is addressed by explicit key values and the exact pass of the lookup must find its member — wherever
+// the key-less twin stands.
+func stableTwinPair(r *Rng) (*Val, *Val) {
+	id := VNum(float64(1 + r.Intn(3)))
+	lacking := VObj("id", id.Clone(), "v", VNum(float64(r.Intn(3))))
+	withNull := VObj("id", id.Clone(), "k", VNull(), "v", VNum(float64(3+r.Intn(3))))
+	others := []*Val{}
+	for j := 0; j < r.Intn(3); j++ {
+		others = append(others, VObj("id", VNum(float64(10+j)), "k", VStr("x"), "v", VNum(float64(j))))
+	}
+	ms := append([]*Val{lacking, withNull}, others...)
+	for i := len(ms) - 1; i > 0; i-- {
+		j := r.Intn(i + 1)
+		ms[i], ms[j] = ms[j], ms[i]
+	}
+	a := VArr(ms...)
+	b := a.Clone()
+	for _, m := range b.A {
+		if m.O["k"] != nil && (m.O["k"].K == KNull || r.Chance(1, 2)) {
+			switch r.Intn(3) {
+			case 0:
+				m.O["v"] = VNum(float64(7 + r.Intn(3)))
+			case 1:
+				m.O["w"] = VArr(VNum(1))
+			default:
+				m.O["v"] = VObj("n", VNum(float64(r.Intn(2))))
+			}
+		}
+	}
+	switch r.Intn(3) {
+	case 0:
+		return VObj("items", a), VObj("items", b)
+	case 1:
+		return VArr(VNum(0), a), VArr(VNum(0), b)
+	}
+	return a, b
+}
+
+// precRunPair: two arrays of numbers of the same length (sometimes below an object key or inside an outer array);
+// position by position b keeps the number, nudges it by less than eps (exactly representable steps are not needed),
+// or replaces it by a really different one; sometimes one element is dropped or inserted at an end
+func precRunPair(r *Rng, eps float64) (*Val, *Val) {
+	n := 2 + r.Intn(5)
+	xs, ys := []*Val{}, []*Val{}
+	for j := 0; j < n; j++ {
+		x := float64(1 + r.Intn(4))
+		xs = append(xs, VNum(x))
+		switch r.Intn(4) {
+		case 0:
+			ys = append(ys, VNum(x))
+		case 1, 2:
+			ys = append(ys, VNum(x+eps*0.4))
+		default:
+			ys = append(ys, VNum(x+5))
+		}
+	}
+	switch r.Intn(6) {
+	case 0:
+		ys = ys[1:]
+	case 1:
+		ys = append(ys, VNum(9))
+	}
+	a, b := VArr(xs...), VArr(ys...)
+	switch r.Intn(4) {
+	case 0:
+		return VObj("k", a), VObj("k", b)
+	case 1:
+		return VArr(VStr("h"), a), VArr(VStr("h"), b)
+	}
+	return a, b
 }
 
 func addC01Case(run *Run, o OptSet, label string, a, b *Val) {
